@@ -85,3 +85,19 @@ Definition g_new_fieldlist (factory : string) (v : Z) : D (list (Z * bool) * ger
   | Some f => ret (fl_fields (f_map f) (v mod 2 ^ f_bits f), None)
   | None => dpanic
   end.
+
+(* ---- NewRegisterApi ---- *)
+
+(* the object NewRegisterApi builds (the port and the driver are the ambient state) *)
+Record apiobj := mkApi { ao_product : Z; ao_registers : reglist }.
+
+(* vedirect.NewVedirect(port, cfg): the driver on the port; it returns no error *)
+Definition p_new_vedirect : D (unit * gerr) := ret (tt, None).
+
+(* veproduct.Product(id).Exists(): the regenerated product table *)
+Definition g_product_exists (id : Z) : bool := p_exists (obs_product id).
+
+(* veregister.GetRegisterListByProduct(id): the regenerated list table; class 1 = ErrUnsupportedType *)
+Definition g_reglist_by_product (id : Z) : reglist * gerr :=
+  let '(e, rl) := obs_reglist id in
+  (rl, if e =? 0 then None else Some (if e =? 1 then EUnsupportedType else EOther)).
